@@ -130,13 +130,25 @@ CLAIMS['C10'] = {
             'meta-theorem connecting these to every interleaving is a paper argument',
 }
 CLAIMS['C15'] = {
-    'text': 'MethodRegistry.add / _add_method / get / Method.__init__ under contract, with the map _registry as the abstract '
-            'view: registering stores the method under prefix+separator+name (name = explicit name or __name__), a later '
-            'registration under an existing key replaces the earlier one, every other key keeps its entry (whole-view '
-            'postcondition: the map changes at exactly one key), get returns exactly the stored entry or None (-> -32601 by '
-            'C03); the decorator form returns the user function itself.',
-    'note': 'merge(), add_methods(), view() / MethodView registration are not yet under contract; function identity is a '
-            'heap reference; __name__ of a callable is an uninterpreted string attribute',
+    'text': 'MethodRegistry.add / _add_method / get / merge, Method.__init__ and Method.copy under contract, with the map '
+            '_registry as the abstract view: registering stores the method under prefix+separator+name (name = explicit name '
+            'or __name__), a later registration under an existing key replaces the earlier one, every other key keeps its '
+            'entry (whole-view postcondition: the map changes at exactly one key), get returns exactly the stored entry or '
+            'None (-> -32601 by C03); the decorator form returns the user function itself. merge(other): a loop invariant over '
+            'other.items() proves, for an ARBITRARY name g (hand-skolemised universal: one uninterpreted constant shared by '
+            'all clauses), that prefix.g reaches a new Method around the function other registers under g (same context '
+            'settings, named prefix.g) iff g is registered in other, and is otherwise exactly what it was; for an ARBITRARY '
+            'key that cannot be a prefixed name nothing changes; other itself is unchanged; Method.copy(name=) is proved to '
+            'build that Method.',
+    'note': 'ViewMethod.copy is an ASSUMED contract (getattr by a symbolic name in ViewMethod.__init__); add_methods(), view(), '
+            'ViewMixin.__methods__ and the dispatcher-level wrappers are not under contract - these, and merge over views, are '
+            'exercised only by the BOUNDED stand-in registry_histories (all histories of up to 4 registration operations x 3 '
+            'prefixes, merged 3 levels deep, key set and reached function compared with a reference model, probed through '
+            'Dispatcher incl. private members and one-edit neighbours); assumed for merge: registered names are non-empty '
+            'strings, other is not self, a function\'s __pjrpc_meta__ dict and a registry\'s name table are different '
+            'objects (field regions, A-fields); coarse frame ($containers + *.__pjrpc_meta__) compensated by whole-view '
+            'clauses on both registries; function identity is a heap reference; __name__ of a callable is an uninterpreted '
+            'string attribute',
 }
 CLAIMS['C18'] = {
     'text': 'aiohttp / flask / werkzeug _rpc_handle and the werkzeug WSGI entry point are each proved against ONE spec '
@@ -168,8 +180,13 @@ CLAIMS['C13'] = {
             '(reference cycles, tracebacks, caches of the standard library) is outside the heap model - functools.lru_cache is '
             'modelled as transparent - and is covered by the BOUNDED stand-in per_request_retention only (weak references to '
             '40 contexts / view instances per configuration after gc; it found the signature cache of the validators '
-            'retaining every class-based-view instance and its context - repaired, known_findings.json); Method.bind / the '
-            'validators are an assumed contract in the frame proof; user callables may retain what they like',
+            'retaining every class-based-view instance and its context - repaired, known_findings.json); in the frame proof of '
+            'the chain Method.bind is the abstract contract, the frame modifies=() of the CONCRETE Method.bind / '
+            'BaseValidator.validate_method / bind / JsonSchemaValidator.validate_method is proved separately and is part of '
+            'this check; response-level independence from the history (incl. state hidden in CPython-level caches) is '
+            'replayed natively by the BOUNDED stand-in history_independence (every 1-request history (thorough: 2) + probe '
+            'over a corpus on the JSON scalar alphabet vs. the probe on a fresh dispatcher, both dispatchers); user '
+            'callables may retain what they like',
 }
 CLAIMS['C04'] = {
     'text': 'Method.bind, BaseValidator.validate_method and BaseValidator.bind are proved against contracts in which '
